@@ -15,6 +15,11 @@ fn main() {
     let prop: &'static str = Box::leak(args[1].clone().into_boxed_str());
     let mode = args[2].as_str();
     vcore::util::install_panic_hook();
+    if mode == "convert" {
+        let raw = args.get(4).is_some_and(|x| x == "raw");
+        vcore::ck_engine::convert(prop, &args[3], raw);
+        return;
+    }
     let report: Report = if mode == "replay" {
         let path = args.get(3).expect("replay needs a path");
         match prop {
